@@ -229,6 +229,82 @@ def _import_plan(ck, tier):
         ck.sample(cases[0])
 
 
+def _layout(ck, tier):
+    """differential: how pack_all_loose / add_objects_to_pack / add_streamed_objects_to_pack distribute the objects of ONE call over packs
+    vs Layout.segs (extracted), given the stored lengths in write order (recovered from the new index rows: the set-iteration order is an
+    oracle), the target and the size the first pack written had before the call"""
+    import io
+    import os
+    import shutil
+    import sqlite3
+    import subprocess
+    import common
+    common.use_repo()
+    from disk_objectstore import Container
+    rnd = ck.rng
+    ncases = 30 if tier == 'quick' else 300
+    root = common.scratch_root()
+    lines, got, metas = [], [], []
+    try:
+        for ci in range(ncases):
+            d = os.path.join(root, f'l{ci}')
+            target = rnd.choice([1, 20, 50, 120, 400])
+            c = Container(d)
+            c.init_container(clear=True, pack_size_target=target)
+            uid = 0
+            for call in range(rnd.randint(1, 4)):
+                con = sqlite3.connect(os.path.join(d, 'packs.idx'))
+                before = {r[0] for r in con.execute('select id from db_object')}
+                con.close()
+                sizes_before = {int(f): os.path.getsize(os.path.join(d, 'packs', f)) for f in os.listdir(os.path.join(d, 'packs')) if f.lstrip('-').isdigit()}
+                n = rnd.randint(0, 9)
+                objs = []
+                for _ in range(n):
+                    uid += 1
+                    objs.append(b'%d|' % uid + bytes(rnd.choice([97, 98]) for _ in range(rnd.choice([0, 1, 5, 30, 60, 150]))))
+                kind = rnd.choice(['pack', 'topack', 'topack_stream'])
+                comp = rnd.random() < 0.4
+                if kind == 'pack':
+                    for o in objs:
+                        c.add_object(o)
+                    c.pack_all_loose(compress=comp)
+                    c.clean_storage()
+                elif kind == 'topack':
+                    c.add_objects_to_pack(objs, compress=comp)
+                else:
+                    c.add_streamed_objects_to_pack([io.BytesIO(o) for o in objs], compress=comp)
+                con = sqlite3.connect(os.path.join(d, 'packs.idx'))
+                rows = [r for r in con.execute('select id, pack_id, offset, length from db_object order by pack_id, offset, id') if r[0] not in before]
+                con.close()
+                if not rows:
+                    continue
+                # write order within a pack = offset order (zero-length rows share an offset: they are adjacent either way); packs in id order
+                lens = [r[3] for r in rows]
+                size0 = sizes_before.get(rows[0][1], 0)
+                groups = {}
+                for i, r in enumerate(rows):
+                    groups.setdefault(r[1], []).append(i)
+                got.append(' '.join(','.join(map(str, g)) for _, g in sorted(groups.items())))
+                lines.append(f"segs {target} {size0} | {','.join(map(str, lens))}")
+                metas.append({'target': target, 'size0': size0, 'lens': lens, 'call': kind, 'compress': comp})
+                ck.count(('layout', target, size0, tuple(lens)), nontrivial=len(lens) > 1)
+                ck.cov.setdefault('layout_shapes', {}).setdefault(f'packs={min(len(groups), 4)}', 0)
+                ck.cov['layout_shapes'][f'packs={min(len(groups), 4)}'] += 1
+            c.close()
+            shutil.rmtree(d, ignore_errors=True)
+    finally:
+        shutil.rmtree(root, ignore_errors=True)
+    out = subprocess.run([os.path.join(common.OCAML, 'driver')], input='\n'.join(lines) + '\n', capture_output=True, text=True, timeout=300).stdout.split('\n')
+    bad = [(m, g, o) for m, g, o in zip(metas, got, out) if g.strip() != o.strip()]
+    ck.obligation('correspondence: distribution of the objects of one call over packs (pack_all_loose / add_objects_to_pack / add_streamed_objects_to_pack, '
+                  'targets 1..400, existing packs) == Layout.segs (extracted) on the stored lengths in write order',
+                  not bad and len(out) >= len(lines), str(bad[:2])[:900], kind='correspondence')
+    for m, g, o in bad[:1]:
+        ck.fail(f'one {m["call"]} call with target {m["target"]} distributed its objects over packs as [{g}], the fill-order model gives [{o.strip()}] '
+                f'(stored lengths {m["lens"]}, first pack had {m["size0"]} bytes)', {'kind': 'layout', **m}, 'C13:layout')
+    ck.cov['layout_calls'] = len(lines)
+
+
 def _traces(names):
     def f(ck, tier):
         import scen
@@ -248,4 +324,4 @@ def _pages(ck, tier):
 EXTRA = {'C02': _traces(None), 'C03': _traces(None),
          'C09': (lambda ck, tier: (_traces(['add_dup', 'topack', 'topack_nh', 'topack_nh_rt0', 'topack_multi', 'import_same'])(ck, tier), _pages(ck, tier))),
          'C10': (lambda ck, tier: (_traces(['pack_clean', 'pack_auto', 'repack', 'repack_keep'])(ck, tier), _estimate(ck, tier))), 'C11': _traces(['delete', 'repack', 'repack_keep']),
-         'C13': (lambda ck, tier: (_traces(tracecheck.NOREPACK_SCENARIOS)(ck, tier), _pick_pack(ck, tier))), 'C14': (lambda ck, tier: (_traces(['import_same', 'import_diff', 'import_same_stream', 'import_diff_stream'])(ck, tier), _import_plan(ck, tier)))}
+         'C13': (lambda ck, tier: (_traces(tracecheck.NOREPACK_SCENARIOS)(ck, tier), _pick_pack(ck, tier), _layout(ck, tier))), 'C14': (lambda ck, tier: (_traces(['import_same', 'import_diff', 'import_same_stream', 'import_diff_stream'])(ck, tier), _import_plan(ck, tier)))}
